@@ -157,6 +157,12 @@ Theorem C06_executemany_row_by_row : forall lazy s qs c cs,
 Proof. exact cr_run_flatten. Qed.
 Print Assumptions C06_executemany_row_by_row.
 
+(* ... and a crash between two rows of it finds what a crash before it finds *)
+Theorem C06_crash_inside_executemany : forall lazy qs s cs j,
+  reopen (cr_run lazy s (firstn j (combine (map SExec qs) cs))) = reopen s.
+Proof. exact exec_rows_keep_durable. Qed.
+Print Assumptions C06_crash_inside_executemany.
+
 (* ---- non-vacuity ---- *)
 
 Definition ex_meta : meta := mkMeta 1 2 3 4 None 0.
@@ -205,3 +211,14 @@ Example C06_state_cells :
   map er_data (sq_events (live (ex_state h))) = [9] /\
   sq_seq_e (reopen (ex_state h)) = 1 /\ sq_seq_e (live (ex_state h)) = 2.
 Proof. vm_compute. repeat split; reflexivity. Qed.
+
+(* Sensitivity: were the commit of delete_bucket moved between its two statements (a
+   script that is NOT [sscript]), a crash after that commit would find the bucket row
+   without any of its 51 events - the tables after a prefix that ends inside the call. *)
+Example C06_state_split_sensitivity :
+  let h51 := Std (CreateBucket 7 ex_meta) :: ex_inserts 51 in
+  let moved := [SExec (QDeleteEventsOf 7); SCommit; SExec (QDeleteBucket 7)] in
+  ex_sizes (reopen (cr_run true (ex_state h51) (ex_timed (firstn 2 moved)))) = (1, 0)%nat /\
+  ex_sizes (reopen (cr_run true (ex_state h51) (ex_timed (sscript (live (ex_state h51)) (Std (DeleteBucket 7))))))
+    = (0, 0)%nat.
+Proof. vm_compute. split; reflexivity. Qed.
